@@ -1069,6 +1069,17 @@ Example C05_db_sample_covered :
 Proof. exact sx_link_sample. Qed.
 Print Assumptions C05_db_sample_covered.
 
+(* the hypotheses of the history theorem hold TOGETHER of the example: sx_db is what four public queries build from db_new
+   (insert nodes with an alias and two values; insert nodes; insert edges with a value; insert index — run_items), hence
+   HInv sx_db (C13_history_invariant); it lies in the record map sx_g (C05_db_sample) with the witness sx_wit; and the history
+   [insert edge 2 -> 1; remove edge -3] is covered *)
+Example C05_db_sample_covered_history :
+  HistoryAtomicProofs.run_items rv_fixed db_new sx_history = sx_db /\
+  HistoryAtomicProofs.HInv sx_db /\ stored_db_w sx_g 1 sx_db sx_wit /\
+  so_covered_all rv_fixed sx_db [CqInsertEdge 2 1; CqRemove (-3)].
+Proof. exact (conj sx_reached sx_link_sample_hinv). Qed.
+Print Assumptions C05_db_sample_covered_history.
+
 (* so_covered is decidable: the boolean so_coveredb computes it (theories/StoredDbOpsLinkDec.v) *)
 From Agdb Require Import StoredDbOpsLinkDec.
 Theorem C05_db_covered_decidable :
